@@ -192,11 +192,13 @@ def _est(st, dom, idxs):
         variants.append(("cat-ordered", None))
     if h % 3 == 2:
         variants.append(("int-declared", None))
+    if h % 2 == 0:
+        variants.append(("int-declared-perm", None))
     if h % 4 == 0:
         variants.append(("weighted", None))
     for variant, _ in variants:
         ddom = tuple(dom)
-        df, states = mk_df(data, dom, "int" if variant in ("int", "int-declared", "weighted") else variant)
+        df, states = mk_df(data, dom, "int" if variant in ("int", "int-declared", "int-declared-perm", "weighted") else variant)
         weights = [F(1)] * len(data)
         sn = None
         weighted = False
@@ -212,6 +214,13 @@ def _est(st, dom, idxs):
             ddom = tuple(len(sn[c]) for c in COLS)
             states = [sn[c] for c in COLS]
             rdata = data
+        elif variant == "int-declared-perm":
+            # declared state lists that are NOT in sorted order: reference state index k <-> declared[k]
+            perm = {i: ([1, 0] if dom[i] == 2 else [2, 0, 1]) for i in range(3)}
+            sn = {c: list(perm[i]) for i, c in enumerate(COLS)}
+            states = [sn[c] for c in COLS]
+            inv = [{s: k for k, s in enumerate(states[i])} for i in range(3)]
+            rdata = [tuple(inv[i][r[i]] for i in range(3)) for r in data]
         elif variant == "weighted":
             ws = [F(1), F(2), F(1, 2)]
             weights = [ws[i % 3] for i in range(len(data))]
